@@ -12,6 +12,12 @@ sexp sexp_bignum_sub_digits (sexp ctx, sexp dst, sexp a, sexp b);
 sexp_sint_t sexp_bignum_compare_abs (sexp a, sexp b);
 sexp sexp_bignum_quot_rem (sexp ctx, sexp *rem, sexp a, sexp b);
 sexp sexp_bignum_fxrem (sexp ctx, sexp a, sexp_sint_t b);
+sexp sexp_bignum_fxadd (sexp ctx, sexp a, sexp_uint_t b);
+sexp sexp_bignum_fxsub (sexp ctx, sexp a, sexp_uint_t b);
+sexp sexp_bignum_fxmul (sexp ctx, sexp d, sexp a, sexp_uint_t b, int offset);
+sexp_uint_t sexp_bignum_fxdiv (sexp ctx, sexp a, sexp_uint_t b, int offset);
+sexp sexp_bignum_mul (sexp ctx, sexp dst, sexp a, sexp b);
+sexp sexp_bignum_normalize (sexp a);
 
 static sexp ctx;
 
@@ -37,14 +43,36 @@ static void prwords(sexp x) {
   for (sexp_uint_t i = 0; i < n; i++) printf("%s%lx", i ? "," : "", (unsigned long)sexp_bignum_data(x)[i]);
 }
 
+/* a number: f:<signed hex> | b:<sign>:<words> */
+static sexp mknum(sexp ctx, char *t) {
+  if (t[0] == 'f') {
+    char *p = t + 2; int neg = (*p == '-'); if (neg) p++;
+    sexp_sint_t v = (sexp_sint_t)strtoull(p, NULL, 16);
+    return sexp_make_fixnum(neg ? -v : v);
+  } else {
+    char *p = t + 2; char *c = strchr(p, ':'); *c = 0;
+    return mkbig(ctx, p, c + 1);
+  }
+}
+static void prnum(sexp x) {
+  if (sexp_fixnump(x)) { long v = (long)sexp_unbox_fixnum(x); if (v < 0) printf("f:-%lx", -(unsigned long)v); else printf("f:%lx", v); }
+  else if (sexp_bignump(x)) { printf("b:%d:", (int)sexp_bignum_sign(x)); prwords(x); }
+  else if (sexp_exceptionp(x)) printf("EXC");
+  else printf("ERR not-a-number");
+}
+
 static void prz(long v) { if (v < 0) printf("-%lx", -v); else printf("%lx", v); }
 
 int main(int argc, char **argv) {
   char line[200000];
   sexp_scheme_init();
   ctx = sexp_make_eval_context(NULL, NULL, NULL, 0, 0);
-  sexp_gc_var3(a, b, r);
-  sexp_gc_preserve3(ctx, a, b, r);
+  sexp_gc_var5(a, b, r, vmadd, vmsub);
+  sexp_gc_preserve5(ctx, a, b, r, vmadd, vmsub);
+  sexp_load_standard_env(ctx, NULL, SEXP_SEVEN);
+  vmadd = sexp_eval_string(ctx, "(lambda (a b) (+ a b))", -1, NULL);
+  vmsub = sexp_eval_string(ctx, "(lambda (a b) (- a b))", -1, NULL);
+  if (!sexp_procedurep(vmadd) || !sexp_procedurep(vmsub)) { fprintf(stderr, "cannot compile vm probes\n"); return 3; }
   while (fgets(line, sizeof line, stdin)) {
     char *f[8]; int nf = 0; char *tok = strtok(line, " \n");
     while (tok && nf < 8) { f[nf++] = tok; tok = strtok(NULL, " \n"); }
@@ -64,12 +92,51 @@ int main(int argc, char **argv) {
     } else if (!strcmp(f[0], "bignum_sub") && nf == 5) {
       a = mkbig(ctx, f[1], f[2]); b = mkbig(ctx, f[3], f[4]);
       r = sexp_bignum_sub(ctx, NULL, a, b); prz(sexp_bignum_sign(r)); printf(" "); prwords(r);
+    } else if (!strcmp(f[0], "fxadd") && nf == 3) {
+      a = mkbig(ctx, "1", f[1]);
+      r = sexp_bignum_fxadd(ctx, a, strtoull(f[2], NULL, 16)); prwords(r);
+    } else if (!strcmp(f[0], "fxsub") && nf == 4) {
+      a = mkbig(ctx, f[1], f[2]);
+      r = sexp_bignum_fxsub(ctx, a, strtoull(f[3], NULL, 16)); prz(sexp_bignum_sign(r)); printf(" "); prwords(r);
+    } else if (!strcmp(f[0], "fxmul") && nf == 4) {
+      a = mkbig(ctx, "1", f[1]);
+      r = sexp_bignum_fxmul(ctx, NULL, a, strtoull(f[2], NULL, 16), atoi(f[3])); prwords(r);
+    } else if (!strcmp(f[0], "fxdiv") && nf == 4) {
+      a = mkbig(ctx, "1", f[1]);
+      sexp_uint_t rr = sexp_bignum_fxdiv(ctx, a, strtoull(f[2], NULL, 16), atoi(f[3]));
+      prwords(a); printf(" %lx", (unsigned long)rr);
+    } else if (!strcmp(f[0], "fxrem") && nf == 4) {
+      a = mkbig(ctx, f[1], f[2]);
+      { char *p = f[3]; int neg = (*p == '-'); if (neg) p++;
+        sexp_sint_t bv = (sexp_sint_t)strtoull(p, NULL, 16);
+        r = sexp_bignum_fxrem(ctx, a, neg ? -bv : bv); prnum(r); }
+    } else if (!strcmp(f[0], "normalize") && nf == 3) {
+      a = mkbig(ctx, f[1], f[2]); r = sexp_bignum_normalize(a); prnum(r);
+    } else if (!strcmp(f[0], "bignum_mul") && nf == 5) {
+      a = mkbig(ctx, f[1], f[2]); b = mkbig(ctx, f[3], f[4]);
+      r = sexp_bignum_mul(ctx, NULL, a, b); prz(sexp_bignum_sign(r)); printf(" "); prwords(r);
+    } else if (!strcmp(f[0], "quot_rem") && nf == 5) {
+      a = mkbig(ctx, f[1], f[2]); b = mkbig(ctx, f[3], f[4]);
+      { sexp rem = SEXP_VOID; r = sexp_bignum_quot_rem(ctx, &rem, a, b);
+        if (sexp_exceptionp(r)) { printf("DIVZERO\n"); continue; }
+        prnum(r); printf(" "); prnum(rem);
+        /* operands must be untouched */
+        printf(" | "); prz(sexp_bignum_sign(a)); printf(" "); prwords(a); printf(" "); prz(sexp_bignum_sign(b)); printf(" "); prwords(b); }
+    } else if ((!strcmp(f[0], "num_add") || !strcmp(f[0], "num_sub") || !strcmp(f[0], "num_mul")) && nf == 3) {
+      a = mknum(ctx, f[1]); b = mknum(ctx, f[2]);
+      r = f[0][4] == 'a' ? sexp_add(ctx, a, b) : f[0][4] == 's' ? sexp_sub(ctx, a, b) : sexp_mul(ctx, a, b);
+      prnum(r);
+    } else if ((!strcmp(f[0], "vm_add") || !strcmp(f[0], "vm_sub")) && nf == 3) {
+      /* through the VM opcode: a compiled (lambda (a b) (+ a b)) applied to the two numbers */
+      a = mknum(ctx, f[1]); b = mknum(ctx, f[2]);
+      r = sexp_list2(ctx, a, b);
+      r = sexp_apply(ctx, f[0][3] == 'a' ? vmadd : vmsub, r); prnum(r);
     } else {
       printf("ERR unknown request");
     }
     printf("\n");
   }
-  sexp_gc_release3(ctx);
+  sexp_gc_release5(ctx);
   sexp_destroy_context(ctx);
   return 0;
 }
